@@ -53,6 +53,24 @@ impl Opd {
         let c = self.col;
         self.write_at(c, data)
     }
+    /// value class 14: on a 128-bit accumulator every word additionally gets a seeded signed 40-bit HIGH part (|a| up to 2^103);
+    /// 64-bit accumulators cannot hold such values and keep the low part only (the event is then compared within a family)
+    pub fn add_high(&mut self, seed: u64) {
+        if self.sb != 16 {
+            return;
+        }
+        let mut rng = Rng::new(seed ^ 0x4849);
+        for j in 0..self.size {
+            let o = self.off(j, self.col);
+            let n = self.n;
+            let w = self.buf.win_mut();
+            for i in 0..n {
+                let lo = i128::from_le_bytes(w[o + i * 16..o + i * 16 + 16].try_into().unwrap());
+                let hi = ((rng.next() as i64) >> 24) as i128;
+                w[o + i * 16..o + i * 16 + 16].copy_from_slice(&(lo + (hi << 64)).to_le_bytes());
+            }
+        }
+    }
     pub fn read(&self) -> Vec<Vec<i128>> {
         let w = self.buf.win();
         (0..self.size)
@@ -122,6 +140,8 @@ pub struct Plan {
     pub big_r: bool,
     pub uses_r: bool,
     pub exact: bool,
+    pub vclass: u64,
+    pub hiseed: u64,
 }
 
 fn gu(c: &Value, k: &str, d: u64) -> u64 {
@@ -144,7 +164,7 @@ fn wide_col(rng: &mut Rng, size: usize, n: usize, b: usize, class: u64) -> Col {
             (0..n)
                 .map(|i| match class {
                     10 => ((rng.next() as i64) >> (64 - b.max(1) as u32)).clamp(-half, half - 1),
-                    11 => rng.next() as i64,
+                    11 | 14 => rng.next() as i64,
                     12 => match rng.below(8) {
                         0 => half,
                         1 => -half,
@@ -277,6 +297,8 @@ pub fn make_plan(c: &Value, seed: u64) -> Plan {
         big_r,
         uses_r,
         exact: c.get("scr").and_then(|v| v.as_str()) == Some("exact"),
+        vclass,
+        hiseed: seed ^ id.wrapping_mul(0x77),
     }
 }
 
@@ -312,6 +334,9 @@ macro_rules! hal_backend {
             let mut b = Opd::new(p.n, p.bcols, p.bsz, 0, p.bcol, if p.big_b { sbig } else { 8 }, f ^ 3);
             let mut s = Opd::new(p.n, p.acols, 1, 0, p.acol, 8, f ^ 4);
             a.write(&p.da);
+            if p.vclass == 14 && p.big_a {
+                a.add_high(p.hiseed);
+            }
             b.write(&p.db);
             s.write(&p.ds);
             if p.uses_r {
@@ -531,7 +556,7 @@ pub fn run_case(mods: &mut Mods, c: &Value, seed: u64) -> Value {
         "n": p.n,
         "na": p.na,
         "rs": p.rs,
-        "p": {"k": p.k, "limb": p.limb, "part": p.part, "rb": p.rb, "ab": p.ab},
+        "p": {"k": p.k, "limb": p.limb, "part": p.part, "rb": p.rb, "ab": p.ab, "vclass": p.vclass},
         "shape": {"rcols": p.rcols, "rcol": p.rcol, "acols": p.acols, "acol": p.acol, "bcols": p.bcols, "bcol": p.bcol, "rextra": p.rextra},
         "ins": if agree_only { json!({}) } else { Value::Object(ins) },
         "outs": outs,
@@ -628,7 +653,7 @@ pub fn run_encode_case(c: &Value, seed: u64) -> Value {
     let outs: Vec<Value> = groups.into_iter().map(|(who, val, panic)| json!({"who": who, "d": val["d"], "dec": val["dec"], "panic": panic})).collect();
     json!({
         "id": gu(c, "id", 0), "op": p.op, "n": p.n, "na": p.na, "rs": p.rs,
-        "p": {"k": p.k, "limb": p.limb, "part": 0, "rb": p.rb, "ab": p.ab},
+        "p": {"k": p.k, "limb": p.limb, "part": 0, "rb": p.rb, "ab": p.ab, "vclass": p.vclass},
         "shape": {"rcols": p.rcols, "rcol": p.rcol, "acols": 1, "acol": 0, "bcols": 1, "bcol": 0, "rextra": p.rextra},
         "ins": {"a": json!(p.da), "b": json!([]), "r": if p.op == "encode_coeff_i64" { json!(p.dr) } else { json!([]) }, "s": json!([]), "parts": json!([])},
         "outs": outs, "frame": frame, "frame_bad": if frame { json!([]) } else { json!(["encode"]) }, "scr": json!([]),
